@@ -116,7 +116,39 @@ for nm, fn in (('m_columns_unquoted', 'end_unquoted_string_value'), ('m_columns_
                     (r'stack_\.back\(\) == csv_mode::data', '!vx_mode_subfields', 0, 1)],
              slice_from=r'case csv_mapping_kind::m_columns:', slice_to=r'\}\s*break;\s*default:\s*break;\s*\}\s*$',
              prologue='switch (0) {', epilogue='}'))
+
+# ---- the states between two fields (before_unquoted_string ... before_last_quoted_field_tail): a list of sub-fields is open exactly while the mode on top of the stack is `subfields`,
+# every field-ending state closes it, and each state delivers at most one event (the cursor keeps one)
+FS_IN = ['before_unquoted_string', 'before_unquoted_field', 'before_unquoted_field_tail', 'before_unquoted_field_tail1', 'before_last_unquoted_field', 'before_last_unquoted_field_tail', 'before_unquoted_subfield',
+         'before_unquoted_subfield_tail', 'before_quoted_field', 'before_quoted_subfield', 'before_quoted_subfield_tail', 'before_last_quoted_field', 'before_last_quoted_field_tail']
+FS_ST = ' || '.join('self->state_ == csv_parse_state_%s' % x for x in FS_IN)
+EV = '(vx_begin_arrays + vx_end_arrays + vx_end_unquoted + vx_end_quoted2)'
+FS_C = [
+    ('requires', '(%s) && *ec_p == 0 && self->more_ && self->column_ <= SIZE_MAX / 2 && vx_column_index <= SIZE_MAX / 2 && vx_level >= 0 && vx_level <= 1000000 && vx_lists_open <= 1 && (vx_mode == csv_mode_header || vx_mode == csv_mode_data || vx_mode == csv_mode_subfields) '
+                 '&& ((vx_mode == csv_mode_subfields) == (vx_lists_open == 1)) && vx_begin_arrays == 0 && vx_end_arrays == 0 && vx_end_unquoted == 0 && vx_end_quoted2 == 0 && vx_clears == 0' % FS_ST),
+    ('assigns', '*ec_p, self->state_, self->more_, self->input_ptr_, self->column_, vx_buflen, vx_clears, vx_column_index, vx_level, vx_lists_open, vx_mode, vx_begin_arrays, vx_end_arrays, vx_end_unquoted, vx_end_quoted2'),
+    ('ensures', '[C05][C18] a list of sub-fields is open exactly while the mode is `subfields` (begin_array and end_array stay balanced over any sequence of steps), and the nesting level follows the events',
+     '((vx_mode == csv_mode_subfields) == (vx_lists_open == 1)) && vx_lists_open <= 1 && vx_level == __CPROVER_old(vx_level) + (int)vx_begin_arrays - (int)vx_end_arrays'),
+    ('ensures', '[C05] each state delivers at most one event (in cursor mode the visitor keeps exactly one)', '%s <= 1' % EV),
+    ('ensures', '[C05][C18] the states that end a field close the list: after them no list is open, and a record is never ended with one open',
+     '((%s) ==> (vx_lists_open == 0 && vx_mode != csv_mode_subfields)) && (self->state_ == csv_parse_state_end_record ==> vx_lists_open == 0)'
+     % ' || '.join('__CPROVER_old(self->state_) == csv_parse_state_%s' % x for x in ['before_unquoted_field_tail', 'before_unquoted_field_tail1', 'before_last_unquoted_field_tail', 'before_last_quoted_field_tail'])),
+    ('ensures', '[C18] the sub-field states open the list when a data field turns out to have sub-fields (once), never in the header',
+     '((__CPROVER_old(self->state_) == csv_parse_state_before_unquoted_subfield || __CPROVER_old(self->state_) == csv_parse_state_before_quoted_subfield) ==> (vx_begin_arrays == (__CPROVER_old(vx_mode) == csv_mode_data ? 1 : 0) && vx_end_arrays == 0 && (__CPROVER_old(vx_mode) != csv_mode_header ==> vx_mode == csv_mode_subfields)))'),
+    ('ensures', '[C18] the column index advances once per field (in the tail state of a field), not per sub-field',
+     'vx_column_index == __CPROVER_old(vx_column_index) + ((%s) ? 1 : 0)' % ' || '.join('__CPROVER_old(self->state_) == csv_parse_state_%s' % x for x in ['before_unquoted_field_tail', 'before_last_unquoted_field_tail', 'before_last_quoted_field_tail'])),
+]
+FS_AL = dict(AL, column_index_='vx_column_index', cursor_mode_='vx_cursor_mode', mapping_kind_='vx_mapping_kind', mark_level_='vx_mark_level', level_='vx_level')
+SPECS.append(EnumSpec('csv_mode', P))
+SPECS.append(FuncSpec('field_states', P, SIG, count=1, csig='void field_states(struct csv_parser* self, int* ec_p)', contract=FS_C, aliases=FS_AL,
+             rules=RULES[:2] + [(r'csv_mapping_kind::(\w+)', r'csv_mapping_kind_\1', 0, 8), (r'stack_\.back\(\)', 'vx_mode', 1, 12), (r'csv_mode::(\w+)', r'csv_mode_\1', 1, 16), (r'stack_\.pop_back\(\);', 'vx_mode = csv_mode_data;', 0, 6),
+                    (r'stack_\.push_back\(csv_mode_subfields\);', 'vx_mode = csv_mode_subfields;', 0, 2), (r'local_visitor\.begin_array\(semantic_tag::none, \*this, ec\);', 'vx_begin_arrays++; vx_lists_open++;', 0, 2),
+                    (r'local_visitor\.end_array\(\*this, ec\);', 'vx_end_arrays++; vx_lists_open--;', 0, 6), (r'end_unquoted_string_value\(local_visitor, ec\);', 'vx_end_unquoted++;', 0, 4), (r'end_quoted_string_value\(local_visitor, ec\);', 'vx_end_quoted2++;', 0, 4),
+                    (r'\blevel\(\)', 'vx_level', 0, 6), (r'buffer_\.clear\(\);', 'vx_buf_clear();', 1, 1)],
+             slice_from=r'case csv_parse_state::before_unquoted_string:\s*\{\s*buffer_\.clear\(\);', slice_to=r'case csv_parse_state::unquoted_string:\s*\{\s*switch \(curr_char\)',
+             prologue='switch (state_) {', epilogue='default: break; }'))
 HARNESSES = [
+    Harness('field_states', 'h_field_states', enforce='field_states', method='LF', props=['C05', 'C18'], note='program slice of the state switch of parse_some: the thirteen states between two fields; the stack of modes is modelled by its top (a list of sub-fields is only ever pushed on `data`); the state before_unquoted_field_tail1 is in the slice but no state leads to it'),
     Harness('before_value_data', 'h_before_value_data', enforce='before_value_data', method='LF', props=['C05', 'C18']),
     Harness('m_columns_unquoted', 'h_m_columns_unquoted', enforce='m_columns_unquoted', method='LF', props=['C05', 'C18']),
     Harness('m_columns_quoted', 'h_m_columns_quoted', enforce='m_columns_quoted', method='LF', props=['C05', 'C18']),
